@@ -48,6 +48,7 @@ type Case struct {
 	BatchSize int      `json:"batch_size,omitempty"` // vist: scan batch size
 	TS        uint64   `json:"ts,omitempty"`         // vist: read timestamp
 	VisInj    []VisInj `json:"visinj,omitempty"`     // vist: safe-point updates at chosen instants
+	Faults    []Fault  `json:"faults,omitempty"`     // gc custom mode: RPC errors / cancellation during the FIRST pass
 	Script2   []Op     `json:"script2,omitempty"`    // gc custom mode: more leftovers written after the first pass ...
 	SP2       uint64   `json:"sp2,omitempty"`        // ... and a SECOND pass with this safe point on the same store, lock resolver and Runner object
 	Raw       bool     `json:"raw,omitempty"`        // gc: no ScanLock normalisation for this case (the store's own answer)
@@ -57,6 +58,13 @@ type Case struct {
 // VisInj: UpdateTxnSafePointCache(SP) at the At-th data RPC (Get/BatchGet/Scan, 1-based, arrival order) of the read:
 // When = before (inside SendRequest, before the inner call) | after_inner (inside SendRequest, after the inner call
 // returned, i.e. the response exists but the client has not seen it yet) | after_call (At ignored: after the API call returned)
+// Fault: the At-th RPC of that kind (1-based, arrival order) is answered with an error instead of being served:
+// scan_keyerr / resolve_keyerr / check_keyerr / pessrb_keyerr = a KeyError in the response body; cancel = the pass's context
+// is cancelled right before the At-th ScanLock/ResolveLock is served
+type Fault struct {
+	At   int    `json:"at"`
+	Kind string `json:"kind"`
+}
 type VisInj struct {
 	At   int    `json:"at"`
 	When string `json:"when"`
